@@ -25,6 +25,11 @@ LIKELY_RULE = ("suite `likely` (harness built with the likelysubtags feature and
                "random triples over the CLDR subtag universe + unknown representatives; method forms with variants attached; the 710 layout locales and "
                "language x script / language x region products for character_direction. non-trivial = distinct (operation, input) pairs whose model answer is not an error")
 
+LANGID_RULE = ("suite `langid`: G2 token sequences (12 first tokens x boundary-class alphabet of ~78 tokens: all sequences of <= 3 tokens, "
+               "<= 4 over a 31-token alphabet; thorough: one more level), joined with random '-'/'_' masks; G3 random well-formed identifiers with random "
+               "case/separator masks; G4 1-3 edit mutations of them; from_parts with shuffled/duplicated variants; the C11 product domain "
+               "(108 x 108 x 4 flag pairs); random parsed pairs for matches / cmp / == / hash / == &str. non-trivial = distinct (operation, input) pairs the model accepts")
+
 PROPS = {
     "C06": {
         "runs": simple("likely", ops=["maximize", "li_maximize"], features=["likely"]),
@@ -46,6 +51,10 @@ PROPS = {
     "C18": {
         "runs": simple("likely", ops=["table_row", "table_len", "cldr_version", "maximize"], features=["likely"]),
         "rule": LIKELY_RULE,
+    },
+    "C02": {
+        "runs": simple("langid", ops=["langid", "li_canonicalize"]),
+        "rule": LANGID_RULE,
     },
     "C15": {
         "runs": simple("subtags", ops=["lang", "script", "region", "variant"]),
